@@ -290,6 +290,58 @@ func registryChurn(side string) any {
 		if err != nil {
 			return M{"err": "write: " + err.Error()}
 		}
+		// a built-in driver is taken out: documents of every version then give a document or an
+		// error (never a panic), and those of the format without driver an error
+		inputs := map[formats.Format]string{
+			formats.SPDX22JSON: `{"spdxVersion":"SPDX-2.2","dataLicense":"CC0-1.0","SPDXID":"SPDXRef-DOCUMENT","name":"d","documentNamespace":"https://example.com/d22","packages":[{"SPDXID":"SPDXRef-p","name":"p","downloadLocation":"NOASSERTION"}]}`,
+			formats.SPDX23JSON: `{"spdxVersion":"SPDX-2.3","dataLicense":"CC0-1.0","SPDXID":"SPDXRef-DOCUMENT","name":"d","documentNamespace":"https://example.com/d23","packages":[{"SPDXID":"SPDXRef-p","name":"p","downloadLocation":"NOASSERTION"}]}`,
+			formats.CDX15JSON:  string(b),
+			formats.CDX14JSON:  `{"bomFormat":"CycloneDX","specVersion":"1.4","version":1,"components":[{"bom-ref":"c","type":"library","name":"c"}]}`,
+			formats.CDX13JSON:  `{"bomFormat":"CycloneDX","specVersion":"1.3","version":1,"components":[{"bom-ref":"c","type":"library","name":"c"}]}`,
+		}
+		for _, gone := range []formats.Format{formats.SPDX23JSON, formats.CDX15JSON, formats.CDX14JSON} {
+			drv, err := reader.GetFormatUnserializer(gone)
+			if err != nil {
+				continue
+			}
+			msg := func() (msg string) {
+				reader.UnregisterUnserializer(gone)
+				defer reader.RegisterUnserializer(gone, drv)
+				for f, in := range inputs {
+					for _, explicit := range []bool{false, true} {
+						what := fmt.Sprintf("with the driver of %s removed, a %s document (format stated: %v)", gone, f, explicit)
+						res := func() (res string) {
+							defer func() {
+								if r := recover(); r != nil {
+									res = fmt.Sprintf("panics: %v", r)
+								}
+							}()
+							var d *sbom.Document
+							var err error
+							if explicit {
+								d, err = reader.New().ParseStreamWithOptions(strings.NewReader(in), &reader.Options{Format: f})
+							} else {
+								d, err = reader.New().ParseStream(strings.NewReader(in))
+							}
+							switch {
+							case err == nil && d == nil:
+								return "gives neither a document nor an error"
+							case err == nil && f == gone:
+								return "is parsed all the same"
+							}
+							return ""
+						}()
+						if res != "" {
+							return what + " " + res
+						}
+					}
+				}
+				return ""
+			}()
+			if msg != "" {
+				return M{"err": msg}
+			}
+		}
 		back, err := reader.New().ParseStream(bytes.NewReader(b))
 		if err != nil {
 			return M{"err": "parse after registry changes: " + err.Error()}
@@ -515,6 +567,26 @@ func storeRevisions() any {
 		}
 		want["urn:rev:1"] = proto.Clone(doc).(*sbom.Document)
 		check("after the object went back to its first identifier")
+		// revisions that differ in letter case only, in a name and in the identifier of a node
+		{
+			d := bigDoc(3, 16)
+			d.Metadata.Id = "urn:rev:letter-case"
+			for pass, name := range []string{"OpenSSL", "openssl", "OPENSSL", "OpenSSL"} {
+				d.NodeList.Nodes[1].Name = name
+				d.Metadata.Comment = strings.ToUpper(d.Metadata.Comment)
+				if pass%2 == 1 {
+					d.Metadata.Comment = strings.ToLower(d.Metadata.Comment) + "c"
+				}
+				if err := store(d); err != nil {
+					bad("(%s) store of a revision fails: %v", through, err)
+					continue
+				}
+				fresh := &storage.FileSystem{Options: storage.FileSystemOptions{Path: sub}}
+				if got, err := fresh.Retrieve(d.Metadata.Id, &storage.RetrieveOptions{}); err != nil || !proto.Equal(got, d) {
+					bad("(%s) after a successful store of a revision that differs from the previous one in letter case (node name %q), the entry holds node name %q (error %v)", through, name, got.GetNodeList().GetNodes()[1].GetName(), err)
+				}
+			}
+		}
 		// documents of every size around the powers of two: what a completed store leaves is the
 		// whole document, first store and overwrite alike
 		for _, size := range []int{1, 2, 63, 64, 65, 127, 128, 129, 191, 192, 193, 255, 256, 257, 512, 1024} {
